@@ -12,6 +12,8 @@ import (
 	"sync/atomic"
 	"time"
 
+	"github.com/cloudwego/eino/callbacks"
+	"github.com/cloudwego/eino/compose"
 	"github.com/cloudwego/eino/schema"
 	"github.com/cloudwego/eino/verifharness/gcase"
 	"github.com/cloudwego/eino/verifharness/vh"
@@ -25,6 +27,67 @@ type c19Case struct {
 	InChunks []int        `json:"inChunks"`
 	Paradigm string       `json:"paradigm"` // stream | transform
 	Consume  int          `json:"consume"`  // -1: read to the end; k >= 0: read k chunks then close
+	Handlers []string     `json:"handlers,omitempty"` // callback handlers of the run (see c19Handlers)
+}
+
+// callback handlers attached to the run (compose.WithCallbacks). Every handler that takes a copy of a
+// stream closes it (after reading nothing / one chunk / everything), as the property assumes;
+// "plain" has no streaming callbacks at all (its TimingChecker answers false for them).
+func c19Handlers(kinds []string) []callbacks.Handler {
+	var hs []callbacks.Handler
+	for _, k := range kinds {
+		hb := callbacks.NewHandlerBuilder()
+		switch k {
+		case "plain":
+			hb = hb.OnStartFn(func(ctx context.Context, info *callbacks.RunInfo, in callbacks.CallbackInput) context.Context { return ctx }).
+				OnEndFn(func(ctx context.Context, info *callbacks.RunInfo, out callbacks.CallbackOutput) context.Context { return ctx })
+		case "out-close":
+			hb = hb.OnEndWithStreamOutputFn(func(ctx context.Context, info *callbacks.RunInfo, out *schema.StreamReader[callbacks.CallbackOutput]) context.Context {
+				out.Close()
+				return ctx
+			})
+		case "out-prefix":
+			hb = hb.OnEndWithStreamOutputFn(func(ctx context.Context, info *callbacks.RunInfo, out *schema.StreamReader[callbacks.CallbackOutput]) context.Context {
+				go func() {
+					out.Recv()
+					out.Close()
+				}()
+				return ctx
+			})
+		case "out-all":
+			hb = hb.OnEndWithStreamOutputFn(func(ctx context.Context, info *callbacks.RunInfo, out *schema.StreamReader[callbacks.CallbackOutput]) context.Context {
+				go func() {
+					defer out.Close()
+					for {
+						if _, err := out.Recv(); err != nil {
+							return
+						}
+					}
+				}()
+				return ctx
+			})
+		case "in-close":
+			hb = hb.OnStartWithStreamInputFn(func(ctx context.Context, info *callbacks.RunInfo, in *schema.StreamReader[callbacks.CallbackInput]) context.Context {
+				in.Close()
+				return ctx
+			})
+		}
+		hs = append(hs, hb.Build())
+	}
+	return hs
+}
+
+func c19GenHandlers(r *vh.Rand) []string {
+	if !r.Chance(40) {
+		return nil
+	}
+	kinds := []string{"plain", "plain", "out-close", "out-prefix", "out-all", "in-close"}
+	n := 1 + r.Intn(2)
+	var hs []string
+	for i := 0; i < n; i++ {
+		hs = append(hs, kinds[r.Intn(len(kinds))])
+	}
+	return hs
 }
 
 type c19Pre struct {
@@ -110,10 +173,14 @@ func c19One(ctx *vh.Ctx, c *c19Case) error {
 	if panicked, pv := vh.Safely(func() {
 		finished = vh.WithTimeout(20*time.Second, func() {
 			var sr *schema.StreamReader[gcase.M]
+			var ropts []compose.Option
+			if len(c.Handlers) > 0 {
+				ropts = append(ropts, compose.WithCallbacks(c19Handlers(c.Handlers)...))
+			}
 			if c.Paradigm == "transform" {
-				sr, runErr = r.Transform(bg, schema.StreamReaderFromArray(gcase.ChunkMap(c.InChunks, x)))
+				sr, runErr = r.Transform(bg, schema.StreamReaderFromArray(gcase.ChunkMap(c.InChunks, x)), ropts...)
 			} else {
-				sr, runErr = r.Stream(bg, x)
+				sr, runErr = r.Stream(bg, x, ropts...)
 			}
 			if runErr != nil {
 				return
@@ -140,6 +207,9 @@ func c19One(ctx *vh.Ctx, c *c19Case) error {
 	ctx.Res.Dist(fmt.Sprintf("nodes=%d", nodes))
 	ctx.Res.Dist(fmt.Sprintf("consume=%d", c.Consume))
 	ctx.Res.Dist("mode=" + c.G.Mode)
+	for _, h := range c.Handlers {
+		ctx.Res.Dist("handler=" + h)
+	}
 	if !clean {
 		ctx.Res.Dist("out-of-scope(precondition)")
 		ctx.Res.Count("oos", false)
@@ -163,6 +233,9 @@ func c19One(ctx *vh.Ctx, c *c19Case) error {
 		sig := "C19:producer-blocked"
 		if len(pre.Surplus) > 0 {
 			sig = "C19:producer-blocked:surplus-branch-copy"
+		}
+		if len(c.Handlers) > 0 {
+			sig += ":callbacks"
 		}
 		ctx.Res.Disagree(vh.Disagreement{Signature: sig,
 			What: fmt.Sprintf("after the run completed and its output was %s, %d producer(s) are still blocked on a send: %s", map[bool]string{true: "read to the end", false: "closed early"}[c.Consume < 0], len(stuck), strings.Join(vh.SortedStrings(stuck), ",")),
@@ -231,6 +304,7 @@ func runC19(ctx *vh.Ctx) error {
 			}
 		}
 		c := &c19Case{G: g, Input: fmt.Sprintf("in%d", ctx.Rng.Intn(4)), Paradigm: []string{"stream", "transform"}[ctx.Rng.Intn(2)]}
+		c.Handlers = c19GenHandlers(ctx.Rng)
 		switch ctx.Rng.Intn(3) {
 		case 0:
 			c.Consume = -1
